@@ -18,6 +18,8 @@ MANIFEST = dict(
           "of the counter-clockwise order, no vertex is lost, no 'convex check' error is raised; the frame lemma that ties the in-plane coordinates (p - c).v0, (p - c).v1 back to n.((b - a) x (j - a)) (Binet-Cauchy + BAC-CAB); the constructor's front end "
           "for 3-5 input points with every duplication pattern: duplicates are merged keeping first occurrences, fewer than three given points raise, the plane is the plane of the first three distinct points (negated for reverse=True), the centre is the "
           "vertex mean, the input tuple is deep-copied; -polygon is built from the same vertices with reverse=True and the plane of -(polygon) has the opposite normal, so -(-p) has the normal of p. "
+          "ConvexPolyhedron.__init__ on a tetrahedron with symbolic vertices, faces in shuffled order and in given orientations (4 orientation patterns on every change; thorough: all 16, plus triangular prisms and parallelepipeds): no exception, "
+          "V / E / F of the body, centre = vertex mean, every stored normal points away from the centre, one pyramid per face, the given faces are neither modified nor shared. "
           "BOUNDED (labelled): all permutations / duplications for catalogue polygons with 3-8 vertices, all face orders and sampled 2^F orientation choices for catalogue polyhedra (outward normals, vertex / edge / face sets, V - E + F = 2, centre inside), "
           "and intersection results fed back as inputs."),
     note=("A3: atan2 enters only through the sign of z, its values on the axes and the cross-product order of angles in the same open half-plane. The sort proof is in the in-plane frame of the code ((p - c).v0, (p - c).v1 as ghost coordinates), "
@@ -26,7 +28,7 @@ MANIFEST = dict(
     design_ref="DESIGN.md section 9 (C09), section 3.4",
 )
 EXPLANATION = "proved: vertex sort n = 3, 4 in all input orders, frame lemma, constructor front end, negation; bounded: larger n, polyhedra"
-BOUNDED_ONLY = ["Geometry3D.geometry.polyhedron:ConvexPolyhedron.__init__", "Geometry3D.geometry.polygon:ConvexPolygon._check_and_sort_points (n >= 5)"]
+BOUNDED_ONLY = ["Geometry3D.geometry.polyhedron:ConvexPolyhedron.__init__ (bodies other than tetrahedron / prism / parallelepiped)", "Geometry3D.geometry.polygon:ConvexPolygon._check_and_sort_points (n >= 6)"]
 
 
 def cross2(u, w):
@@ -276,6 +278,7 @@ def groups(tier):
             gs.append(Group("constructor front end[points %s%s]" % ("".join(map(str, pat)), ", reverse" if rev else ""), front_end_harness(pat, rev), [PGM + "__init__", PGM + "_get_center_point"],
                             stubs=cs, world="COORD", timeout_s=600, prove_ms=30000))
     gs.append(Group("negation of polygon and plane", h_negation, [PGM + "__neg__", "Geometry3D.geometry.plane:Plane.__neg__"], stubs=cs, world="COORD", timeout_s=600, prove_ms=30000))
+    gs += polyhedron_groups(tier)
     return gs
 
 
@@ -288,3 +291,150 @@ def bounded(tier, seed):
 def replay_case(case):
     from g3dvc import bounded as B
     return B.replay_construction(case)
+
+
+# ---------------------------------------------------------------------------
+# ConvexPolyhedron.__init__ on bodies of fixed combinatorial type with symbolic vertices: faces given in the stated order and with the stated
+# orientations (bit i = face i is listed clockwise seen from outside ... or not: both are explored, the sign of the volume is symbolic)
+# ---------------------------------------------------------------------------
+
+def _face(vc, g, verts, name):
+    """a valid ConvexPolygon on the given vertex cycle: plane through the first vertex with the unit normal about which the cycle is counter-clockwise"""
+    pg = g.ConvexPolygon.__new__(g.ConvexPolygon)
+    pg.points = tuple(g.Point(*v) for v in verts)
+    w = SP.cross(SP.sub(verts[1], verts[0]), SP.sub(verts[2], verts[0]))
+    k = vc.real(name + ".k")
+    vc.assume(And(k > 0, SP.eq(k * k * SP.norm2(w), 1)), "invariant: unit normal, cycle counter-clockwise about it")
+    pl = g.Plane.__new__(g.Plane)
+    pl.p = g.Point(*verts[0])
+    pl.n = g.Vector(*SP.scale(k, w))
+    pg.plane = pl
+    m = len(verts)
+    pg.center_point = g.Point(*[sum(v[c] for v in verts) / m for c in range(3)])
+    return pg
+
+
+def x_polygon_neg(self):
+    """contract of ConvexPolygon.__neg__ (proved above for the plane, bounded for the re-sorted cycle): same vertices in reversed order, opposite normal"""
+    from g3dvc import sym as S
+    g = C.G()
+    vc = S.engine()
+    vc.hit("ConvexPolygon.__neg__")
+    pg = g.ConvexPolygon.__new__(g.ConvexPolygon)
+    pg.points = tuple(g.Point(*SP.vec(p)) for p in reversed(self.points))
+    pl = g.Plane.__new__(g.Plane)
+    pl.p = g.Point(*SP.vec(self.plane.p))
+    pl.n = g.Vector(*SP.neg(SP.vec(self.plane.n)))
+    pg.plane = pl
+    pg.center_point = g.Point(*SP.vec(self.center_point))
+    return pg
+
+
+BODIES = {
+    # name: (number of free vertices, function building the vertex list from base points / vectors, faces as index cycles)
+    "tetrahedron": dict(nv=4, faces=[(0, 1, 2), (0, 1, 3), (0, 2, 3), (1, 2, 3)], V=4, E=6),
+    "triangular prism": dict(nv=6, faces=[(0, 1, 2), (3, 4, 5), (0, 1, 4, 3), (1, 2, 5, 4), (2, 0, 3, 5)], V=6, E=9),
+    "parallelepiped": dict(nv=8, faces=[(0, 1, 3, 2), (4, 5, 7, 6), (0, 1, 5, 4), (2, 3, 7, 6), (0, 2, 6, 4), (1, 3, 7, 5)], V=8, E=12),
+}
+
+
+def polyhedron_ctor_harness(body, bits, order):
+    spec = BODIES[body]
+
+    def h(vc):
+        g = C.G()
+        if not vc.symbolic:
+            return _polyhedron_concrete(vc, body, bits, order)
+        b = C.witness(vc, "b")
+        e1, e2, e3 = C.witness(vc, "e1"), C.witness(vc, "e2"), C.witness(vc, "e3")
+        det = SP.det3(e1, e2, e3)
+        vc.assume(Not(SP.eqz(det)), "the body is not flat (edge vectors independent)")
+        if body == "tetrahedron":
+            verts = [b, SP.add(b, e1), SP.add(b, e2), SP.add(b, e3)]
+        elif body == "triangular prism":
+            verts = [b, SP.add(b, e1), SP.add(b, e2), SP.add(b, e3), SP.add(SP.add(b, e1), e3), SP.add(SP.add(b, e2), e3)]
+        else:
+            verts = [SP.add(SP.add(SP.add(b, SP.scale(i, e1)), SP.scale(j, e2)), SP.scale(k_, e3)) for k_ in (0, 1) for j in (0, 1) for i in (0, 1)]
+        faces = []
+        for fi, cyc in enumerate(spec["faces"]):
+            cyc = list(cyc)
+            if bits[fi]:
+                cyc = cyc[::-1]
+            faces.append(_face(vc, g, [verts[i] for i in cyc], "f%d" % fi))
+        faces = [faces[i] for i in order]
+        c = [sum(v[k_] for v in verts) / len(verts) for k_ in range(3)]
+        # admission: the centre is off every face plane by the margin of the flip test
+        for f in faces:
+            q = SP.dot(SP.sub(SP.vec(f.plane.p), c), SP.vec(f.plane.n))
+            vc.admit(Or(q >= C.ADM * C.EPS0, q <= -C.ADM * C.EPS0), "centre off every face plane by >= 4 eps")
+        before = [vc.snapshot(f) for f in faces]
+        out = vc.call(g.ConvexPolyhedron, tuple(faces))
+        vc.ensure("ConvexPolyhedron(%s, faces in the order %s, orientations %s) does not raise" % (body, list(order), list(bits)), out.returned)
+        if not out.returned:
+            vc.note(repr(out.value))
+            return
+        ph = out.value
+        vc.ensure("vertex, edge and face counts are those of the body (V - E + F = 2)", (len(ph.point_set), len(ph.segment_set), len(ph.convex_polygons)) == (spec["V"], spec["E"], len(spec["faces"])))
+        vc.ensure("centre is the mean of the vertices", SP.veq(SP.vec(ph.center_point), c))
+        vc.ensure("every face normal points away from the interior (centre strictly behind every face)",
+                  And(*[SP.gtz(SP.dot(SP.sub(SP.vec(f.plane.p), SP.vec(ph.center_point)), SP.vec(f.plane.n))) for f in ph.convex_polygons]))
+        vc.ensure("every stored face is one of the given faces (same vertex set)", all(any(sorted(SP.vec(p)[0].t.get_id() if hasattr(SP.vec(p)[0], "t") else 0 for p in f.points) ==
+                                                                                         sorted(SP.vec(p)[0].t.get_id() if hasattr(SP.vec(p)[0], "t") else 0 for p in g_.points) for g_ in faces) for f in ph.convex_polygons))
+        vc.ensure("one pyramid per face", len(ph.pyramid_set) == len(spec["faces"]))
+        vc.ensure("frame: the given faces are unchanged (the polyhedron owns copies)", [vc.snapshot(f) for f in faces] == before)
+        from g3dvc.engine import mutable_ids
+        vc.ensure("ownership: the polyhedron shares no mutable object with the given faces", not (mutable_ids(ph) & set().union(*[mutable_ids(f) for f in faces])))
+
+    return h
+
+
+def _polyhedron_concrete(vc, body, bits, order):
+    g = C.G()
+    spec = BODIES[body]
+    b, e1, e2, e3 = (1, -2, 3), (3, 1, 0), (-1, 4, 1), (1, 1, 5)
+    add = lambda *vs: tuple(sum(x) for x in zip(*vs))
+    sc = lambda k, v: tuple(k * x for x in v)
+    if body == "tetrahedron":
+        verts = [b, add(b, e1), add(b, e2), add(b, e3)]
+    elif body == "triangular prism":
+        verts = [b, add(b, e1), add(b, e2), add(b, e3), add(b, e1, e3), add(b, e2, e3)]
+    else:
+        verts = [add(b, sc(i, e1), sc(j, e2), sc(k_, e3)) for k_ in (0, 1) for j in (0, 1) for i in (0, 1)]
+    faces = []
+    for fi, cyc in enumerate(spec["faces"]):
+        cyc = list(cyc)[::-1] if bits[fi] else list(cyc)
+        faces.append(g.ConvexPolygon(tuple(g.Point(*verts[i]) for i in cyc)))
+    faces = [faces[i] for i in order]
+    out = vc.call(g.ConvexPolyhedron, tuple(faces))
+    vc.ensure("ConvexPolyhedron does not raise", out.returned)
+    if out.returned:
+        ph = out.value
+        vc.ensure("counts", (len(ph.point_set), len(ph.segment_set), len(ph.convex_polygons)) == (spec["V"], spec["E"], len(spec["faces"])))
+        c = ph.center_point
+        vc.ensure("every face normal points away from the interior", all(sum(f.plane.n[k] * (f.plane.p[k] - c[k]) for k in range(3)) > 0 for f in ph.convex_polygons))
+
+
+def polyhedron_groups(tier):
+    import random
+    from props.C01 import coord_stubs
+    C.remember_originals()
+    cs = coord_stubs() + [(C.T_LENGTH, C.x_length), (C.T_NORMALIZED, C.x_normalized), ("Geometry3D.geometry.polygon:ConvexPolygon.__neg__", x_polygon_neg)]
+    gs = []
+    rng = random.Random(9)
+    for body, spec in BODIES.items():
+        F_ = len(spec["faces"])
+        all_bits = list(itertools.product((0, 1), repeat=F_))
+        if tier == "thorough":
+            chosen = all_bits if body == "tetrahedron" else [all_bits[0], all_bits[-1]] + rng.sample(all_bits[1:-1], 4)
+        elif body == "tetrahedron":
+            chosen = [all_bits[0], all_bits[-1], all_bits[5], all_bits[9]]
+        else:
+            chosen = []
+        for bits in chosen:
+            order = list(range(F_))
+            rng.shuffle(order)
+            gs.append(Group("ConvexPolyhedron.__init__[%s, orientations %s, face order %s]" % (body, "".join(map(str, bits)), "".join(map(str, order))),
+                            polyhedron_ctor_harness(body, bits, tuple(order)), ["Geometry3D.geometry.polyhedron:ConvexPolyhedron.__init__", "Geometry3D.geometry.polyhedron:ConvexPolyhedron._check_normal",
+                            "Geometry3D.geometry.polyhedron:ConvexPolyhedron._euler_check", "Geometry3D.geometry.polyhedron:ConvexPolyhedron._get_center_point", "Geometry3D.geometry.pyramid:Pyramid.__init__"],
+                            stubs=cs, world="COORD", timeout_s=1800, prove_ms=30000))
+    return gs
